@@ -59,8 +59,8 @@ class SimAbort(Exception):
 
 def plan(prop, tier):
     if tier == "thorough":
-        return {"run_timeout": 90, "mem_cap_gb": 4, "runs": 160000, "chunk": 1000, "wall_cap": 1700, "selftest": 200, "shrink_wall": 900}
-    return {"run_timeout": 90, "mem_cap_gb": 4, "runs": 9600, "chunk": 200, "wall_cap": 300, "selftest": 48, "shrink_wall": 400}
+        return {"run_timeout": 25, "mem_cap_gb": 4, "runs": 160000, "chunk": 1000, "wall_cap": 1700, "selftest": 200, "shrink_wall": 900}
+    return {"run_timeout": 25, "mem_cap_gb": 4, "runs": 9600, "chunk": 200, "wall_cap": 300, "selftest": 48, "shrink_wall": 400}
 
 
 def worker_init(prop, tier):
